@@ -849,3 +849,27 @@ def run_meta_group(g):
                     "cfg": e.get("swc", "") + ":" + str(e.get("it", "")) + ":" + str(e.get("d", "")), "o": e.get("o", "diff") if e["kind"] == "part" else "maxsum",
                     "kp": e.get("kp", 0), "out": r["out"], "sums": r.get("sums", []), "exact": r.get("exact", True), "n": len(e["vals"])})
     return {"base": g["base"], "events": evs}
+
+
+# ------------------------------------------------------------------ spec -> code replay of L1 machines
+def replay_cg(rec):
+    """rec: emitted by CompleteGreedy.tla (vals, k, o, sw bits, best, trail): run the real complete greedy on the same stimulus under the counting
+    clock; returns two drift traces (partition item-for-item; number of loop iterations)"""
+    vals, k = rec["vals"], rec["k"]
+    ids = list(range(1, len(vals) + 1))
+    sw = rec["sw"]
+    clock = CountingClock()
+    saved = _cg_mod.time
+    _cg_mod.time = clock
+    try:
+        B = prtpy.BinnerKeepingContents(lambda i: vals[i - 1])
+        ret = _cg_mod.anytime(B, k, ids, objective=objective(rec["o"]), use_lower_bound=bool(sw[0]), use_fast_lower_bound=bool(sw[1]),
+                              use_heuristic_3=bool(sw[2]), use_set_of_seen_states=bool(sw[3]))
+        got = [[int(i) for i in b] for b in ret[1]] if ret is not None else []
+    except Exception as e:
+        got = ["EXC " + type(e).__name__]
+    finally:
+        _cg_mod.time = saved
+    key = {"vals": vals, "k": k, "o": rec["o"], "sw": sw}
+    return [{"label": "cg.partition_differs_from_model", "m": rec["best"], "c": got, "key": key},
+            {"label": "cg.number_of_loop_iterations_differs_from_model", "m": len(rec["trail"]), "c": clock.n, "key": key}]
